@@ -5,6 +5,11 @@ Confirms a seeded change (patch.diff + demo.rs + meta.json in <mut-dir>/out/<k>/
 change with the results under /verif/seeded/<dest-name>/."""
 import json, os, re, shutil, subprocess, sys, time
 
+# the rig (tools/rig.sh): a private copy of /verif and a private worktree of /repo, so that seeds can be run while
+# /verif is being edited; without the variables the real places are used
+REPO = os.environ.get("PP_REPO", "/repo")
+VERIF = os.environ.get("PP_VERIF", "/verif")
+
 def sh(cmd, cwd=None, timeout=3600):
     p = subprocess.run(cmd, shell=True, cwd=cwd, stdout=subprocess.PIPE, stderr=subprocess.STDOUT, text=True, timeout=timeout)
     return p.returncode, p.stdout
@@ -19,8 +24,9 @@ def main():
     safe = meta.get("kind") in ("bit-identical", "property-preserving")
     if props == ["auto"]:
         if safe:
-            by_file = {"poly.rs": ["C01", "C07", "C08", "C14", "C17"], "log_poly.rs": ["C01", "C09", "C10", "C14"],
-                       "piecewise.rs": ["C02", "C03", "C11", "C12", "C13", "C15", "C16"], "spline.rs": ["C04", "C05"], "linear.rs": ["C06"]}
+            by_file = {"poly.rs": ["C01", "C07", "C08", "C14", "C17", "C18"], "log_poly.rs": ["C01", "C09", "C10", "C14", "C18"],
+                       "piecewise.rs": ["C02", "C03", "C11", "C12", "C13", "C15", "C16", "C18", "C19"], "spline.rs": ["C04", "C05"], "linear.rs": ["C06"],
+                       "Cargo.toml": ["C18"], "lib.rs": ["C01", "C18"]}
             props = []
             for f in meta.get("files", []):
                 for p in by_file.get(os.path.basename(f), []):
@@ -32,7 +38,7 @@ def main():
         demo = None
     ran = []
     # --- 1. confirm in the scratch worktree
-    sh("git checkout -- src && rm -rf tests", cwd=mut)
+    sh("git checkout -- . && git clean -fdq src && rm -rf tests", cwd=mut)
     os.makedirs(os.path.join(mut, "tests"), exist_ok=True)
     if demo:
         shutil.copyfile(demo, os.path.join(mut, "tests", "demo.rs"))
@@ -43,7 +49,7 @@ def main():
     ran.append("unchanged crate: cargo test --offline --test demo -> " + ("pass" if clean_pass else "FAIL"))
     rc, out = sh(f"git apply {patch}", cwd=mut)
     if rc != 0:
-        print("patch does not apply:", out); sh("git checkout -- src && rm -rf tests", cwd=mut); return 2
+        print("patch does not apply:", out); sh("git checkout -- . && git clean -fdq src && rm -rf tests", cwd=mut); return 2
     if demo:
         os.remove(os.path.join(mut, "tests", "demo.rs"))
     rc1, out1 = sh("cargo test --offline 2>&1 | grep 'test result' | head -1", cwd=mut)
@@ -53,22 +59,28 @@ def main():
         shutil.copyfile(demo, os.path.join(mut, "tests", "demo.rs"))
         rc2, out2 = sh("cargo test --offline --features borsh --test demo 2>&1 | tail -8", cwd=mut)
         demo_fails = "test result: FAILED" in out2 or "panicked" in out2
+        if not demo_fails and not safe:
+            # a change that only shows without debug assertions (the profile users ship)
+            rc3, out3 = sh("cargo test --offline --release --features borsh --test demo 2>&1 | tail -8", cwd=mut)
+            if "test result: FAILED" in out3 or "panicked" in out3:
+                demo_fails = True
+                ran.append("patched crate: demo passes in the dev profile and FAILS with --release (profile-dependent change)")
     else:
         demo_fails = False
     ran.append("patched crate: cargo test --offline --features borsh --test demo -> " + ("FAIL" if demo_fails else "pass"))
-    sh("git checkout -- src && rm -rf tests", cwd=mut)
+    sh("git checkout -- . && git clean -fdq src && rm -rf tests", cwd=mut)
     valid = clean_pass and suite_pass and (demo_fails != safe)
     print(f"[{dest}] confirm: clean_demo_pass={clean_pass} suite_pass={suite_pass} demo_fails={demo_fails}")
     results = {}
     if valid:
         # --- 2. run the checks against it
-        rc, out = sh(f"git -C /repo apply {patch}")
+        rc, out = sh(f"git -C {REPO} apply {patch}")
         if rc != 0:
             print("cannot apply to /repo:", out); return 2
         try:
             for p in props:
                 t0 = time.time()
-                rc, out = sh(f"./check {p}", cwd="/verif", timeout=7200)
+                rc, out = sh(f"./check {p}", cwd=VERIF, timeout=7200)
                 lines = [l for l in out.split("\n") if l.startswith("VIOLATION") or l.startswith("KNOWN") or l.startswith(p + " ")]
                 replay_head = []
                 m = re.search(r"replay=(\S+)", out)
@@ -78,7 +90,7 @@ def main():
                 results[p] = {"exit": rc, "output": lines, "replay_head": replay_head, "wall_s": round(time.time() - t0, 1)}
                 print(f"[{dest}] ./check {p}: exit={rc} " + " | ".join(lines)[:300])
         finally:
-            sh("git -C /repo checkout -- .")
+            sh(f"git -C {REPO} checkout -- . && git -C {REPO} clean -fdq src")
     d = os.path.join("/verif/seeded", dest)
     os.makedirs(d, exist_ok=True)
     shutil.copyfile(patch, os.path.join(d, "patch.diff"))
